@@ -236,6 +236,40 @@ def main(ck, tier, w):
             ck.violation('file size limit %d on a %d byte output: %s' % (L, top, '; '.join(probs)),
                          {'fault': {'callback': 'csvdump', 'rlimit_fsize': L, 'largest_output': top}, 'observed': r.brief(), 'tags': []})
 
+    # the same for the two UTXO dumps: more rows than the 4 MB writer buffer holds, so that on_complete itself issues large
+    # direct writes and a limit can fall inside any of them
+    def wide(h, coin):
+        r0 = random.Random('wide%d' % h)
+        return chains.std_txs(h, coin) + [{'ver': 1, 'ins': [{'txid': r0.randbytes(32), 'idx': 0, 'sig': b'', 'seq': 1}],
+                                           'outs': [{'val': 1 + i, 'spk': b'\x76\xa9\x14' + r0.randbytes(20) + b'\x88\xac'} for i in range(40000)], 'lock': 0}]
+    wd, wblocks = build(w, 3, txs_fn=wide)
+    for cb in ('unspentcsvdump', 'balances'):
+        rg = run.run_parser(wd.path, cb, dump=w.mk('out'), timeout=300)
+        if rg.rc != 0:
+            raise run.ToolError('wide undisturbed run failed: ' + rg.stderr[-200:])
+        wgood = rg.files
+        wtop = max(len(v) for v in wgood.values())
+        ck.cov['big_output_bytes'].update({k: len(v) for k, v in wgood.items()})
+        if wtop <= 4000000:
+            raise run.ToolError('wide output of %s is only %d bytes' % (cb, wtop))
+        Lw = sorted({4096, 3999999, 4000000, 4000001, wtop // 2, wtop - 1, wtop} | {rng.randrange(wtop) for _ in range(3 if quick else 60)})
+
+        def widefault(L, cb=cb, wgood=wgood, wtop=wtop):
+            dd = clone(wd.path)
+            r = run.run_parser(dd, cb, dump=w.mk('out'), fsize=L, timeout=300)
+            shutil.rmtree(dd, ignore_errors=True)
+            probs = judge(cb, r, wgood, final_names(cb, 0, 2))
+            if L < wtop and r.rc == 0:
+                probs.append('exit 0 under a %d byte limit although the output needs %d bytes' % (L, wtop))
+            r.files = {k: b'' for k in r.files}
+            return L, probs, r
+        for L, probs, r in chains.pmap(widefault, Lw, 6):
+            ck.evals()
+            ck.distinct(('wideout', cb, L))
+            if probs:
+                ck.violation('file size limit %d on the %d byte output of %s: %s' % (L, wtop, cb, '; '.join(probs)),
+                             {'fault': {'callback': cb, 'rlimit_fsize': L, 'largest_output': wtop}, 'observed': r.brief(), 'tags': []})
+
     # ---- crash points: abort after every event; traces (prefixes) validated --------------------
     acases = []
     for cb in FILECB:
